@@ -43,14 +43,38 @@ func findMethod(f *ast.File, name string) *ast.FuncDecl {
 	return nil
 }
 
-// isRootField: root.<field>
+// names of the method being read: its first parameter (the syntax node) and the variable
+// its last statement returns (the query being built)
+var rootName, outName, recvName string
+
+func enter(fd *ast.FuncDecl) {
+	rootName, outName, recvName = "", "", ""
+	if rs := fd.Recv.List; len(rs) > 0 && len(rs[0].Names) > 0 {
+		recvName = rs[0].Names[0].Name
+	}
+	if ps := fd.Type.Params.List; len(ps) > 0 && len(ps[0].Names) > 0 {
+		rootName = ps[0].Names[0].Name
+	}
+	if n := len(fd.Body.List); n > 0 {
+		if rs, ok := fd.Body.List[n-1].(*ast.ReturnStmt); ok && len(rs.Results) == 2 {
+			if id, ok := rs.Results[0].(*ast.Ident); ok {
+				outName = id.Name
+			}
+		}
+	}
+	if rootName == "" || outName == "" {
+		die("%s: cannot tell the node parameter / the returned variable", fd.Name.Name)
+	}
+}
+
+// isRootField: <node parameter>.<field>
 func isRootField(e ast.Expr, field string) bool {
 	s, ok := e.(*ast.SelectorExpr)
 	if !ok || s.Sel.Name != field {
 		return false
 	}
 	id, ok := s.X.(*ast.Ident)
-	return ok && id.Name == "root"
+	return ok && id.Name == rootName
 }
 
 func findSwitch(body *ast.BlockStmt, field string) *ast.SwitchStmt {
@@ -238,7 +262,7 @@ func tagOf(cl *ast.CompositeLit, fnKey string, resolve func(string) string) stri
 		if id, ok := kv.Value.(*ast.Ident); ok && id.Name == "true" {
 			flags = append(flags, k)
 		}
-		if k == "Input" && exprName(kv.Value) == "b.firstInput" {
+		if k == "Input" && exprName(kv.Value) == recvName+".firstInput" {
 			flags = append(flags, "firstInput")
 		}
 	}
@@ -265,7 +289,7 @@ func outputsOf(stmts []ast.Stmt, field string) []*ast.CompositeLit {
 				return false
 			}
 		case *ast.AssignStmt:
-			if len(x.Lhs) == 1 && len(x.Rhs) == 1 && exprName(x.Lhs[0]) == "qyOutput" {
+			if len(x.Lhs) == 1 && len(x.Rhs) == 1 && exprName(x.Lhs[0]) == outName {
 				if ue, ok := x.Rhs[0].(*ast.UnaryExpr); ok && ue.Op == token.AND {
 					if cl, ok := ue.X.(*ast.CompositeLit); ok {
 						out = append(out, cl)
@@ -354,6 +378,7 @@ func main() {
 	// ---- processFunction
 	{
 		fd := findMethod(f, "processFunction")
+		enter(fd)
 		sw := findSwitch(fd.Body, "FuncName")
 		def := false
 		b.WriteString("Definition go_functions : list frow := [\n")
@@ -415,6 +440,7 @@ func main() {
 	// ---- processAxis
 	{
 		fd := findMethod(f, "processAxis")
+		enter(fd)
 		sw := findSwitch(fd.Body, "AxisType")
 		def := false
 		b.WriteString("Definition go_axes : list arow := [\n")
@@ -444,6 +470,7 @@ func main() {
 	// ---- processOperator
 	{
 		fd := findMethod(f, "processOperator")
+		enter(fd)
 		sw := findSwitch(fd.Body, "Op")
 		hasDefault := false
 		b.WriteString("Definition go_operators : list orow := [\n")
